@@ -174,6 +174,10 @@ def _arg_choices(name, c):
             {"float_value": 0.3, "double_value": 0.2},
             {"double_value": 0.15, "half_value": 0.05},
             {"float_value": 0.03, "double_value": 0.02, "half_value": 0.01},
+            # exactly zero is a value like any other (no jitter, no floor)
+            {"double_value": 0.0},
+            {"float_value": 0.0, "double_value": 0.1},
+            {"half_value": 0.0, "float_value": 0.0},
         ]
     if k == "fc":
         out = []
